@@ -291,3 +291,17 @@ F("SYNC-method-target-appended-every-run", SYNCP,
   "sync with a method target `C.f` that is never found appends another bare `def f` on every run (follows from "
   "SYNC-method-target-created-at-module-level)",
   ["Idempotent", "OldOrNew", "FrameKept"], when={"k": "sync", "target": "function", "ctx": "method", "extra": True})
+
+# ------------------------------------------------------------------------------------------------ merge (C07, C12)
+F("MERGE-undocumented-kwargs-dropped", ["C07"],
+  "parse.function / parse.class_ keep a **kwargs parameter only when the docstring documents it (adding it is pinned out by the "
+  "golden test test_to_argparse_google_tf_tensorboard)",
+  ["NoDrop"], when={"k": "merge", "name": "kwargs", "documented": False})
+F("MERGE-numpydoc-untyped-entry", ["C07"],
+  "numpydoc docstring written by a user with an entry that has no type (`name :` / `kwargs :`): that entry and its prose are lost "
+  "(and documented types of neighbours may be ignored)",
+  ["NoDrop", "Attribution", "TypMerged", "DefaultMerged"], when={"k": "merge", "style": "numpydoc", "any_untyped_doc": True})
+F("MERGE-class-documented-attributes-first", ["C07"],
+  "parse.class_ lists the attributes that have a :cvar entry first and the undocumented ones after them, whatever their order in "
+  "the class body (same defect as CLASS-documented-first-order)",
+  ["SourceOrder"], when={"k": "merge", "kind": "class", "nattrs": 2})
